@@ -16,13 +16,7 @@ def shapeOf (s : String) : Option (List Nat) :=
   let parts := (s.splitOn "x").map String.toNat?
   if parts.all Option.isSome then some (parts.filterMap id) else none
 
-/-- iterate the checked index over the dimensions: the stride of dimension d is the product of
-the inner extents times the element size -/
-def indexMulti (idx : IntTy) : List Int → List Nat → Nat → Nat → Option Nat
-  | [], [], _, base => some base
-  | i :: is, n :: ns, s, base =>
-      (indexArr idx i n (ns.foldl (· * ·) 1 * s) base).bind fun r => indexMulti idx is ns s r
-  | _, _, _, _ => none
+/- `indexMulti` (any rank) is the model's definition (RlboxModel/Ptr.lean), the subject of C17_multi_n. -/
 
 def step (t : List String) : Option String :=
   match t with
